@@ -3,6 +3,7 @@ package concdrive
 import (
 	"fmt"
 	"strings"
+	"sync"
 	"testing/synctest"
 	"time"
 
@@ -402,6 +403,12 @@ func (r *runner) execOp(i int, op *Op, gate chan struct{}) {
 		if gate == nil && op.Ms > 0 {
 			time.Sleep(time.Duration(op.Ms) * time.Millisecond)
 		}
+	case "selftest_hang":
+		// Self-test of the parent's watchdog: a mutex wait is not a durable
+		// block, so the bubble's clock stops and this never returns.
+		var mu sync.Mutex
+		mu.Lock()
+		mu.Lock()
 	default:
 		r.skip(ot, "unknown op")
 	}
